@@ -305,7 +305,8 @@ class Sub(object):
         if envs:
             # every envs-th case is evaluated a second time in an alternative process environment (gpmc.envs)
             from gpmc import envs as _envs
-            gen = (lambda g: (lambda tier, seed: _envs.expand(g(tier, seed), envs)))(gen)
+            # (thorough tier: four times as often)
+            gen = (lambda g: (lambda tier, seed: _envs.expand(g(tier, seed), envs if tier == 'quick' else max(1, envs // 4))))(gen)
         self.envs = envs
         self.proc_ignore = ()       # keys of snapshot.snap_process() the harness itself changes in this sub-check (e.g. 'cwd')
         self.fresh = fresh          # every work unit in a newly forked copy of the parent (which has only imported the library)
